@@ -360,7 +360,10 @@ bool SessionManager::send(const PeerId& peer_id, std::span<const std::uint8_t> p
     }
 
     crypto::Key key{};
-    key.bytes = session->key;
+    {
+        std::scoped_lock lock(sessions_mutex_);
+        key.bytes = session->key;
+    }
 
     crypto::Nonce nonce{};
     {
@@ -517,7 +520,9 @@ bool SessionManager::handle_pending_handshake(const PeerId& peer_id, SocketHandl
     const bool accepted = replace_session(peer_id, session);
 
     if (!accepted) {
-        return false;
+        // replace_session() kept the existing session and already closed this socket; reporting failure
+        // would make the caller close the same descriptor a second time.
+        return true;
     }
 
     {
@@ -813,7 +818,10 @@ void SessionManager::receive_loop(const PeerId& peer_id, std::shared_ptr<Session
         }
 
         crypto::Key key{};
-        key.bytes = session->key;
+        {
+            std::scoped_lock lock(sessions_mutex_);
+            key.bytes = session->key;
+        }
 
         crypto::Nonce nonce{};
         std::copy(nonce_buffer.begin(), nonce_buffer.end(), nonce.bytes.begin());
@@ -910,7 +918,7 @@ void SessionManager::teardown_sessions() {
                   << " running=" << session->running.load()
                   << " alive=" << session->alive.load() << std::endl;
         session->running.store(false);
-        close_session_socket(session);
+        shutdown_session_socket(session);
 
         auto wait_deadline = std::chrono::steady_clock::now() + std::chrono::seconds(2);
         while (session->alive.load() && std::chrono::steady_clock::now() < wait_deadline) {
@@ -1014,7 +1022,7 @@ bool SessionManager::replace_session(const PeerId& peer_id,
                   << " origin=" << previous->debug_origin << std::endl;
 
         previous->running.store(false);
-        close_session_socket(previous);
+        shutdown_session_socket(previous);
 
         auto wait_deadline = std::chrono::steady_clock::now() + std::chrono::seconds(2);
         while (previous->alive.load() && std::chrono::steady_clock::now() < wait_deadline) {
@@ -1138,6 +1146,23 @@ void SessionManager::close_session_socket(const std::shared_ptr<Session>& sessio
         close_socket(session->socket);
         session->socket = INVALID_SOCKET_HANDLE;
     }
+}
+
+// Wakes the reader thread that blocks on this socket without releasing the descriptor: the reader closes it
+// itself when its loop ends, so the number cannot be reused while another thread still reads from it.
+void SessionManager::shutdown_session_socket(const std::shared_ptr<Session>& session) {
+    if (!session || session->socket_closed.load()) {
+        return;
+    }
+    const auto handle = session->socket.load();
+    if (handle == INVALID_SOCKET_HANDLE) {
+        return;
+    }
+#ifdef _WIN32
+    ::shutdown(to_native(handle), SD_BOTH);
+#else
+    ::shutdown(to_native(handle), SHUT_RDWR);
+#endif
 }
 
 bool SessionManager::configure_socket(SocketHandle handle, bool server_mode) {
